@@ -131,6 +131,13 @@ var negOp = map[string]string{"==": "!=", "!=": "==", "<": ">=", ">=": "<", ">":
 var flipOp = map[string]string{"==": "==", "!=": "!=", "<": ">", ">": "<", "<=": ">=", ">=": "<="}
 
 func normCmp(a *Term, op string, b *Term) Fact {
+	// (x - y) == 0 is x == y, also under wrap-around (not so for the order relations)
+	if (op == "==" || op == "!=") && a.Op == "bin" && a.Name == "-" && len(a.Args) == 2 && b.Op == "const" && b.Name == "0" {
+		return normCmp(a.Args[0], op, a.Args[1])
+	}
+	if (op == "==" || op == "!=") && b.Op == "bin" && b.Name == "-" && len(b.Args) == 2 && a.Op == "const" && a.Name == "0" {
+		return normCmp(b.Args[0], op, b.Args[1])
+	}
 	swap := false
 	switch {
 	case a.Op == "const" && b.Op != "const":
@@ -209,12 +216,15 @@ type FnFacts struct {
 	resolved map[*ssa.Phi]ssa.Value
 }
 
-// phiTest: the block's If tests phi (of the same block) against nil / a boolean outcome.
+// phiTest: the block's If tests a phi against nil, a constant or a boolean outcome. The phi belongs to the block
+// itself or to a join above it from which the block is reached through single-predecessor blocks only (chain).
 type phiTest struct {
 	phi    *ssa.Phi
 	isBool bool // the phi itself is the (possibly negated) condition
-	// for nil tests: the true edge means "phi != nil" when neqOnTrue
+	// nil / constant tests: the true edge means "phi != k" when neqOnTrue
 	neqOnTrue bool
+	k         *ssa.Const        // nil: test against nil
+	chain     []*ssa.BasicBlock // join block ... test block
 }
 
 // Summary is the success summary of a function.
@@ -355,7 +365,20 @@ func (ff *FnFacts) run() {
 	}
 }
 
-// findTest recognises `if phi != nil`, `if phi == nil`, `if phi`, `if !phi` for a phi of block b.
+// chainFrom: the blocks from join down to b when b is reached from join only, through single-predecessor blocks.
+func chainFrom(join, b *ssa.BasicBlock) []*ssa.BasicBlock {
+	chain := []*ssa.BasicBlock{b}
+	for cur := b; cur != join; {
+		if len(cur.Preds) != 1 || len(chain) > 6 {
+			return nil
+		}
+		cur = cur.Preds[0]
+		chain = append([]*ssa.BasicBlock{cur}, chain...)
+	}
+	return chain
+}
+
+// findTest recognises `if phi != nil`, `if phi == k`, `if phi`, `if !phi` (and their negations).
 func findTest(b *ssa.BasicBlock) *phiTest {
 	iff, ok := b.Instrs[len(b.Instrs)-1].(*ssa.If)
 	if !ok {
@@ -371,18 +394,33 @@ func findTest(b *ssa.BasicBlock) *phiTest {
 		}
 		break
 	}
-	if phi, isPhi := cond.(*ssa.Phi); isPhi && phi.Block() == b {
-		return &phiTest{phi: phi, isBool: true, neqOnTrue: !neg}
+	mk := func(phi *ssa.Phi, pt *phiTest) *phiTest {
+		if phi.Block() == nil {
+			return nil
+		}
+		pt.phi = phi
+		pt.chain = chainFrom(phi.Block(), b)
+		if pt.chain == nil {
+			return nil
+		}
+		return pt
+	}
+	if phi, isPhi := cond.(*ssa.Phi); isPhi {
+		return mk(phi, &phiTest{isBool: true, neqOnTrue: !neg})
 	}
 	if bo, isB := cond.(*ssa.BinOp); isB && (bo.Op == token.EQL || bo.Op == token.NEQ) {
 		var other ssa.Value
-		if isNilConst(bo.Y) {
-			other = bo.X
-		} else if isNilConst(bo.X) {
-			other = bo.Y
+		var k *ssa.Const
+		if c, isC := bo.Y.(*ssa.Const); isC {
+			other, k = bo.X, c
+		} else if c, isC := bo.X.(*ssa.Const); isC {
+			other, k = bo.Y, c
 		}
-		if phi, isPhi := other.(*ssa.Phi); isPhi && phi.Block() == b {
-			return &phiTest{phi: phi, neqOnTrue: (bo.Op == token.NEQ) != neg}
+		if phi, isPhi := other.(*ssa.Phi); isPhi {
+			if k.Value == nil {
+				k = nil
+			}
+			return mk(phi, &phiTest{neqOnTrue: (bo.Op == token.NEQ) != neg, k: k})
 		}
 	}
 	return nil
@@ -401,6 +439,22 @@ func (ff *FnFacts) compatible(pt *phiTest, v ssa.Value, truth bool, facts FactSe
 		}
 		if facts.Has((&Fact{Kind: "false", A: t}).Key()) {
 			return !want
+		}
+		return true
+	}
+	if pt.k != nil {
+		wantNeq := truth == pt.neqOnTrue
+		if c, ok := v.(*ssa.Const); ok && c.Value != nil {
+			return (c.Value.ExactString() != pt.k.Value.ExactString()) == wantNeq
+		}
+		t := ff.TB.Of(v)
+		kt := ff.TB.Of(pt.k)
+		eq, ne := normCmp(t, "==", kt), normCmp(t, "!=", kt)
+		if facts.Has(eq.Key()) {
+			return !wantNeq
+		}
+		if facts.Has(ne.Key()) {
+			return wantNeq
 		}
 		return true
 	}
@@ -484,21 +538,33 @@ func (ff *FnFacts) incomings(p *ssa.BasicBlock, phi *ssa.Phi, depth int) []incom
 // outToward: the facts at the end of block p when control leaves it toward s.
 func (ff *FnFacts) outToward(p, s *ssa.BasicBlock, pin FactSet) FactSet {
 	base := pin
+	var extra []Fact
+	var only ssa.Value
 	if pt := ff.tests[p]; pt != nil && len(p.Succs) == 2 && p.Succs[0] != p.Succs[1] {
 		truth := s == p.Succs[0]
 		var acc FactSet
 		first := true
 		var feas [][]int
-		for _, in := range ff.incomings(p, pt.phi, 3) {
+		join := pt.chain[0]
+		for _, in := range ff.incomings(join, pt.phi, 3) {
 			if !ff.compatible(pt, in.val, truth, in.judge) {
 				continue
 			}
 			feas = append(feas, in.idx)
+			only = in.val
+			// carry the facts of this way in down the chain to the test block
+			f := in.facts
+			for i := 0; i+1 < len(pt.chain); i++ {
+				f = ff.outOf(pt.chain[i], f)
+				for _, ef := range ff.edge[[2]*ssa.BasicBlock{pt.chain[i], pt.chain[i+1]}] {
+					f.add(ef)
+				}
+			}
 			if first {
-				acc = in.facts.clone()
+				acc = f.clone()
 				first = false
 			} else {
-				acc = intersect(acc, in.facts)
+				acc = intersect(acc, f)
 			}
 		}
 		ff.feasible[[2]*ssa.BasicBlock{p, s}] = feas
@@ -508,9 +574,33 @@ func (ff *FnFacts) outToward(p, s *ssa.BasicBlock, pin FactSet) FactSet {
 				base[k] = f
 			}
 		}
+		if len(feas) == 1 && only != nil {
+			// the test's outcome, said of the one operand that can produce it
+			switch {
+			case pt.isBool:
+				extra = ff.condFacts(only, truth == pt.neqOnTrue, p)
+			case pt.k != nil:
+				op := "=="
+				if truth == pt.neqOnTrue {
+					op = "!="
+				}
+				extra = []Fact{normCmp(ff.TB.Of(only), op, ff.TB.Of(pt.k))}
+			case isErrorType(only.Type()):
+				extra = ff.errFacts(only, truth != pt.neqOnTrue)
+			default:
+				op := "=="
+				if truth == pt.neqOnTrue {
+					op = "!="
+				}
+				extra = []Fact{{Kind: "cmp", Op: op, A: ff.TB.Of(only), B: &Term{Op: "const", Name: "nil"}}}
+			}
+		}
 	}
 	out := ff.outOf(p, base)
 	for _, f := range ff.edge[[2]*ssa.BasicBlock{p, s}] {
+		out.add(f)
+	}
+	for _, f := range extra {
 		out.add(f)
 	}
 	return out
@@ -557,7 +647,7 @@ func predIndex(b, pred *ssa.BasicBlock) int {
 }
 
 // PathFeasible: can control, having run through path, continue to next? False only when the last block of the path
-// tests one of its phis and the operand selected by the path cannot make the test come out that way.
+// tests a phi and the operand selected by the path cannot make the test come out that way.
 func (ff *FnFacts) PathFeasible(path []*ssa.BasicBlock, next *ssa.BasicBlock) bool {
 	if len(path) < 2 {
 		return true
@@ -568,14 +658,25 @@ func (ff *FnFacts) PathFeasible(path []*ssa.BasicBlock, next *ssa.BasicBlock) bo
 		return true
 	}
 	truth := next == p.Succs[0]
-	k := len(path) - 2
-	q := path[k]
-	i := predIndex(p, q)
+	// the path must end with the chain join ... test block
+	k := len(path) - len(pt.chain)
+	if k < 1 {
+		return true
+	}
+	for i, cb := range pt.chain {
+		if path[k+i] != cb {
+			return true
+		}
+	}
+	join := pt.chain[0]
+	q := path[k-1]
+	k--
+	i := predIndex(join, q)
 	if i < 0 {
 		return true
 	}
 	v := pt.phi.Edges[i]
-	enter := [2]*ssa.BasicBlock{q, p}
+	enter := [2]*ssa.BasicBlock{q, join}
 	for k > 0 {
 		vp, ok := v.(*ssa.Phi)
 		if !ok || vp.Block() != q {
@@ -709,7 +810,7 @@ func (ff *FnFacts) resolvePhis() map[*ssa.Phi]ssa.Value {
 		if len(cands) == 0 {
 			continue
 		}
-		for _, ins := range b.Instrs {
+		for _, ins := range pt.chain[0].Instrs {
 			phi, ok := ins.(*ssa.Phi)
 			if !ok {
 				break
@@ -758,7 +859,7 @@ func (ff *FnFacts) resolvePhis() map[*ssa.Phi]ssa.Value {
 			}
 			if okAll && chosen != nil && nUses > 0 {
 				v := phi.Edges[chosen.idx[0]]
-				q := b.Preds[chosen.idx[0]]
+				q := pt.chain[0].Preds[chosen.idx[0]]
 				for _, j := range chosen.idx[1:] {
 					vp, isPhi := v.(*ssa.Phi)
 					if !isPhi || vp.Block() != q {
